@@ -157,7 +157,9 @@ func c19(c *Ctx) {
 			// PreparedMessage are rendered concurrently (the per-key sync.Once serialises only equal keys)
 			for f, v := range got {
 				switch f.Type().Underlying().(type) {
-				case *types.Slice, *types.Pointer, *types.Map, *types.Chan:
+				case *types.Slice, *types.Pointer, *types.Map, *types.Chan, *types.Interface:
+					// (the interface case is the scratch net.Conn the frame bytes are collected in: taken from a pool
+					// or a field, its buffer would be overwritten by a later rendering while frame.data refers to it)
 					root := strip(v)
 					for root.Kind == core.KSlice {
 						root = strip(root.Args[0])
@@ -458,8 +460,9 @@ func c19(c *Ctx) {
 				}
 				n++
 				ft, data := ev.Args[1], ev.Args[3]
-				if !(ft.Kind == core.KExtract && ft.N == 0 && data.Kind == core.KExtract && data.N == 1 && ft.Args[0] == data.Args[0] && ft.Args[0].Kind == core.KCall && ft.Args[0].Ref == interface{}(frame)) {
-					ok, why = false, "the bytes written are not the (type, data) pair returned by frame()"
+				if !(ft.Kind == core.KExtract && ft.N == 0 && data.Kind == core.KExtract && data.N == 1 && len(ft.Args) > 0 && len(data.Args) > 0 && ft.Args[0] == data.Args[0] && ft.Args[0].Kind == core.KCall && ft.Args[0].Ref == interface{}(frame)) {
+					ok, why = false, "the bytes written are not the (type, data) pair returned by frame(): a frame written with another type escapes the close-sent latch of Conn.write"
+					continue
 				}
 				if !ev.Args[4].IsNil() {
 					ok, why = false, "extra data is written with a prepared frame"
